@@ -10,6 +10,13 @@ Bounded-exhaustive enumeration (engine E1).  Alphabets (all rebuilt from small i
           SumOfProducts with <=2 products over <=2 controls
   SUBS    gates to be controlled (incl. the specialisation shortcuts X/Y/Z/CZ/CX/CY/CCZ/CCX/CCY/CSWAP/GlobalPhase,
           shifted variants that must NOT be specialised, qudit targets, already-controlled gates)
+  PERMG   every >=2-qubit gate family (PhasedFSimGate lattice theta in {0,+-pi/2,pi,g} x zeta/chi in {0,pi,g} x gamma/phi,
+          FSim, CZ/CX/CY/ZZ/XX/YY/ISWAP/SWAP/CCZ/CCX/CCY pow, PhasedISwap, all PauliInteractionGates, diagonal / matrix
+          gates, vendor gates, controlled versions) applied to EVERY ordered pair of permutations of its qubits; ==, hash,
+          approx_eq, equal_up_to_global_phase, commutes of the two operations, of their Moments and Circuits
+  XZ      PhasedXZGate on a quarter-step lattice (x in {0,+-.5,+-1,1.5,2,3,g} x z in k/4 over [-2,2]+g x a in k/4+g, i.e.
+          non-canonical parameterisations): has_stabilizer_effect / canonical_clifford / SingleQubitCliffordGate.from_unitary /
+          to_phased_xz_gate / from_matrix / == against the 24 Clifford PhasedXZGates
   LETTERS placed operations on 3 qubits (overlapping / disjoint supports, interchangeable-qubit gates in both orders,
           controlled ops with permuted controls, Pauli strings, tagged / classically controlled / measurement ops)
 
@@ -48,7 +55,8 @@ RULE = ("gates = every pow-/predicate-capable gate class x parameter grid (expon
         "qudit dimension) x powers {-1,0,.5,1,2,-.25,g,2+g}; control specs = ALL ProductOfSums over <=2 controls "
         "(qubit/qutrit value sets) and ALL SumOfProducts with <=2 products, through controlled()/ControlledGate/"
         "controlled_by/ControlledOperation, nested twice; binary predicates on ALL ordered pairs of the gate alphabet and "
-        "ALL ordered pairs of placed operations on 3 qubits; a case is non-trivial when the object under test returned a "
+        "ALL ordered pairs of placed operations on 3 qubits; every >=2-qubit gate family on ALL ordered pairs of qubit permutations "
+        "(op / Moment / Circuit equality and commutes); PhasedXZGate Clifford recognition on a quarter-step exponent lattice; a case is non-trivial when the object under test returned a "
         "definite answer/result that the matrix oracle could refute (not None/NotImplemented/skipped); distinct = "
         "distinct descriptor tuple")
 TECHNIQUE = ("bounded-exhaustive enumeration of gates x powers, control specifications and operation pairs against "
@@ -609,15 +617,17 @@ def _build_letters(seed, tier):
     return L
 
 def _init(seed, tier):
-    global GATES, SUBS, LETTERS, POWERS, _SEED, _TIER
+    global GATES, SUBS, LETTERS, PERMG, POWERS, _SEED, _TIER
     _SEED, _TIER = seed, tier
     gp = core.generic(seed, 1)
     POWERS = [-1, 0, 0.5, 1, 2, -0.25, gp, 2 + gp]
     GATES = Alpha(_build_gates(seed, tier))
     SUBS = Alpha(_build_subs(seed, tier))
     LETTERS = Alpha(_build_letters(seed, tier))
+    PERMG = Alpha(_build_permg(seed, tier))
     _UC.clear()
     _LC.clear()
+    _PU.clear()
 
 
 def gate_u(i):
@@ -1357,6 +1367,291 @@ def run_op_pair(case):
 # --------------------------------------------------------------------------------------------------------------
 
 
+# --------------------------------------------------------------------------------------------------------------
+# stage: operation predicates under qubit permutations (interchangeable-qubit declarations, sorted controls, moments)
+
+PERMG = Alpha([])
+_PU = {}
+_PERM_QUBITS = [cirq.LineQubit(2), cirq.LineQubit(0), cirq.LineQubit(3), cirq.LineQubit(1)]   # position -> qubit (not sorted)
+
+
+def _build_permg(seed, tier):
+    g, g2, g3, g4 = core.generic(seed, 0), core.generic(seed, 2), core.generic(seed, 4), core.generic(seed, 5)
+    pi = np.pi
+    out = []
+    add = lambda name, fn: out.append((name, fn))
+    # PhasedFSimGate lattice: the qubits are interchangeable iff (zeta = 0 mod pi or cos(theta) = 0) and (chi = 0 mod pi or sin(theta) = 0)
+    thetas = [0.0, pi / 2, pi, -pi / 2, g] if tier == "quick" else [0.0, pi / 2, pi, -pi / 2, 3 * pi / 2, 2 * pi, g, g + pi]
+    zetas = [0.0, pi, g2] if tier == "quick" else [0.0, pi, -pi, g2, g2 + pi]
+    chis = [0.0, pi, g4] if tier == "quick" else [0.0, pi, -pi, g4, g4 + pi]
+    gp = [0.0, g3] if tier == "quick" else [0.0, pi, g3]
+    for th in thetas:
+        for ze in zetas:
+            for ch in chis:
+                for ga in gp:
+                    for ph in gp:
+                        add(f"PhasedFSim({th:.4f},{ze:.4f},{ch:.4f},{ga:.4f},{ph:.4f})",
+                            lambda th=th, ze=ze, ch=ch, ga=ga, ph=ph: cirq.PhasedFSimGate(th, ze, ch, ga, ph))
+    for th in (0.0, pi / 2, pi, g):
+        for ph in (0.0, pi / 2, pi, g2):
+            add(f"FSim({th:.4f},{ph:.4f})", lambda th=th, ph=ph: cirq.FSimGate(th, ph))
+    for nm, cls in (("CZ", cirq.CZPowGate), ("CX", cirq.CXPowGate), ("CY", cirq.CYPowGate), ("ZZ", cirq.ZZPowGate), ("XX", cirq.XXPowGate),
+                    ("YY", cirq.YYPowGate), ("ISWAP", cirq.ISwapPowGate), ("SWAP", cirq.SwapPowGate),
+                    ("CCZ", cirq.CCZPowGate), ("CCX", cirq.CCXPowGate), ("CCY", cirq.CCYPowGate)):
+        for e in (1.0, 0.5, g):
+            for s in (0.0, 0.3):
+                add(f"{nm}Pow(e={e},s={s})", lambda cls=cls, e=e, s=s: cls(exponent=e, global_shift=s))
+    for pe in (0.0, 0.25, 0.5, g2):
+        for e in (1.0, g):
+            add(f"PhasedISwap(p={pe},e={e})", lambda pe=pe, e=e: cirq.PhasedISwapPowGate(phase_exponent=pe, exponent=e))
+    for p0 in (cirq.X, cirq.Y, cirq.Z):
+        for p1 in (cirq.X, cirq.Y, cirq.Z):
+            for i0 in (False, True):
+                for i1 in (False, True):
+                    for e in ((g,) if tier == "quick" else (1.0, g)):
+                        add(f"PauliInteraction({p0},{i0},{p1},{i1},e={e})",
+                            lambda p0=p0, i0=i0, p1=p1, i1=i1, e=e: cirq.PauliInteractionGate(p0, i0, p1, i1, exponent=e))
+    u1, u1b = E.generic_unitary(2, seed + 11), E.generic_unitary(2, seed + 12)
+    u2, u3 = E.generic_unitary(4, seed + 13), E.generic_unitary(8, seed + 14)
+    add("TwoQubitDiagonal(sym)", lambda: cirq.TwoQubitDiagonalGate([0.0, g, g, 2.0]))
+    add("TwoQubitDiagonal(asym)", lambda: cirq.TwoQubitDiagonalGate([0.0, g, g2, 2.0]))
+    add("Diagonal2(sym)", lambda: cirq.DiagonalGate([0.0, g, g, 2.0]))
+    add("Diagonal2(asym)", lambda: cirq.DiagonalGate([0.0, g, g2, 2.0]))
+    add("ThreeQubitDiagonal", lambda: cirq.ThreeQubitDiagonalGate([0.0, g, g, 2.0, g, 2.0, 2.0, g2]))
+    add("Matrix2q", lambda: cirq.MatrixGate(u2))
+    add("Matrix2q(UxU)", lambda: cirq.MatrixGate(np.kron(u1, u1)))
+    add("Matrix2q(UxV)", lambda: cirq.MatrixGate(np.kron(u1, u1b)))
+    add("Matrix3q", lambda: cirq.MatrixGate(u3))
+    add("ms(g)", lambda: cirq.ms(g))
+    add("ionq.MS(g,g)", lambda: cirq_ionq.MSGate(phi0=g, phi1=g))
+    add("ionq.MS(g,g2)", lambda: cirq_ionq.MSGate(phi0=g, phi1=g2))
+    add("ionq.MS(g,g2,.1)", lambda: cirq_ionq.MSGate(phi0=g, phi1=g2, theta=0.1))
+    add("ionq.ZZ(g)", lambda: cirq_ionq.ZZGate(theta=g))
+    add("SYC", lambda: cirq_google.SYC)
+    add("CSWAP", lambda: cirq.CSWAP)
+    add("I2", lambda: cirq.IdentityGate(2))
+    add("QFT2", lambda: cirq.QuantumFourierTransformGate(2))
+    add("PhaseGradient(2,g)", lambda: cirq.PhaseGradientGate(num_qubits=2, exponent=g))
+    add("Parallel(X**g,2)", lambda: cirq.ParallelGate(cirq.X ** g, 2))
+    add("Parallel(Z**g,3)", lambda: cirq.ParallelGate(cirq.Z ** g, 3))
+    add("DPS(XZ)", lambda: cirq.DensePauliString("XZ"))
+    add("DPS(XX)", lambda: cirq.DensePauliString("XX"))
+    add("DPS(ZIZ,-1)", lambda: cirq.DensePauliString("ZIZ", coefficient=-1))
+    add("PSPhasor(XZ,g)", lambda: cirq.PauliStringPhasorGate(cirq.DensePauliString("XZ"), exponent_neg=g))
+    add("PSPhasor(ZZ,g)", lambda: cirq.PauliStringPhasorGate(cirq.DensePauliString("ZZ"), exponent_neg=g))
+    add("Clifford.CNOT", lambda: cirq.CliffordGate.CNOT)
+    add("Clifford.CZ", lambda: cirq.CliffordGate.CZ)
+    add("Clifford.SWAP", lambda: cirq.CliffordGate.SWAP)
+    add("QubitPermutation(1,0)", lambda: cirq.QubitPermutationGate([1, 0]))
+    add("QubitPermutation(1,2,0)", lambda: cirq.QubitPermutationGate([1, 2, 0]))
+    # controlled versions (ControlledOperation sorts its controls together with their values)
+    add("C(Z**g)", lambda: cirq.ControlledGate(cirq.Z ** g))
+    add("C(X**g)", lambda: cirq.ControlledGate(cirq.X ** g))
+    add("C0(Z**g)", lambda: cirq.ControlledGate(cirq.Z ** g, control_values=[0]))
+    add("C(CZ**g)", lambda: cirq.ControlledGate(cirq.CZ ** g))
+    add("C0(CZ**g)", lambda: cirq.ControlledGate(cirq.CZ ** g, control_values=[0]))
+    add("CZ**g.controlled()", lambda: (cirq.CZ ** g).controlled())
+    add("C(SWAP)", lambda: cirq.ControlledGate(cirq.SWAP))
+    add("C(ISWAP**g)", lambda: cirq.ControlledGate(cirq.ISWAP ** g))
+    add("C(FSim(g,g2))", lambda: cirq.ControlledGate(cirq.FSimGate(g, g2)))
+    add("C(PhasedFSim(0,g2,0,.1,.4))", lambda: cirq.ControlledGate(cirq.PhasedFSimGate(0.0, g2, 0.0, 0.1, 0.4)))
+    add("C(PhasedFSim(pi/2,0,g2,.1,.4))", lambda: cirq.ControlledGate(cirq.PhasedFSimGate(pi / 2, 0.0, g2, 0.1, 0.4)))
+    add("C(PhasedFSim(pi/2,g2,0,.1,.4))", lambda: cirq.ControlledGate(cirq.PhasedFSimGate(pi / 2, g2, 0.0, 0.1, 0.4)))
+    add("C(ZZ**g)", lambda: cirq.ControlledGate(cirq.ZZ ** g))
+    add("CC(Z**g)", lambda: cirq.ControlledGate(cirq.Z ** g, num_controls=2))
+    add("CC[0,1](Y**g)", lambda: cirq.ControlledGate(cirq.Y ** g, control_values=[0, 1]))
+    add("CC[(0,1),1](Y**g)", lambda: cirq.ControlledGate(cirq.Y ** g, control_values=[(0, 1), 1]))
+    add("Cxor(X**g)", lambda: cirq.ControlledGate(cirq.X ** g, control_values=cirq.SumOfProducts([(0, 1), (1, 0)])))
+    add("Csop[01,11](X**g)", lambda: cirq.ControlledGate(cirq.X ** g, control_values=cirq.SumOfProducts([(0, 1), (1, 1)])))
+    add("CC(CZ**g)", lambda: cirq.ControlledGate(cirq.CZ ** g, num_controls=2))
+    add("C[0](CCZ**g)", lambda: cirq.ControlledGate(cirq.CCZ ** g, control_values=[0]))
+    add("CCZ**g.controlled()", lambda: (cirq.CCZ ** g).controlled())
+    add("Cxor(SWAP)", lambda: cirq.ControlledGate(cirq.SWAP, control_values=cirq.SumOfProducts([(0, 0), (1, 1)])))
+    return out
+
+
+def perm_gate_u(i):
+    if i not in _PU:
+        m = U(PERMG.make(i))
+        if m is None:
+            raise core.HarnessError(f"gate {PERMG.name(i)} has no unitary")
+        _PU[i] = m
+    return _PU[i]
+
+
+def perm_list(n):
+    return list(itertools.permutations(range(n)))
+
+
+def perm_cases():
+    out = []
+    for gi in range(len(PERMG)):
+        n = cirq.num_qubits(PERMG.make(gi))
+        k = len(perm_list(n))
+        if n <= 3:
+            out += [(gi, a, b) for a in range(k) for b in range(k)]
+        else:
+            out += [(gi, 0, b) for b in range(k)] + [(gi, a, 0) for a in range(1, k)]
+    return out
+
+
+def _commute_verdict(label, c, comm, level, family):
+    if c is True and comm > SLACK:
+        return bad(f"{label} is True but |[A,B]| = {comm:.3g} on the common register", kind="commutes_true", level=level, family=family)
+    if c is False and comm < 1e-9:
+        return bad(f"{label} is False but the matrices commute exactly", kind="commutes_false", level=level, family=family)
+    return None
+
+
+def run_perm(case):
+    gi, ia, ib = case
+    name = PERMG.name(gi)
+    g = PERMG.make(gi)
+    n = cirq.num_qubits(g)
+    family = type(g).__name__ + ("/" + type(g.sub_gate).__name__ if isinstance(g, cirq.ControlledGate) else "")
+    perms = perm_list(n)
+    qs = _PERM_QUBITS[:n]
+    reg = sorted(qs)
+    qa = [qs[k] for k in perms[ia]]
+    qb = [qs[k] for k in perms[ib]]
+    base = perm_gate_u(gi)
+    shape = (2,) * n
+    ma = E.embed(base, [reg.index(q) for q in qa], shape)
+    mb = E.embed(base, [reg.index(q) for q in qb], shape)
+    na = f"{name}.on{tuple(q.x for q in qa)}"
+    nb = f"{name}.on{tuple(q.x for q in qb)}"
+    mk_a = lambda: PERMG.make(gi).on(*qa)
+    mk_b = lambda: PERMG.make(gi).on(*qb)
+    r, definite = equality_predicates(mk_a, mk_b, na, nb, ma, mb, True, "perm_op")
+    if r is not None:
+        r.sig["family"] = family
+        return r
+    x, y = mk_a(), mk_b()
+    if ia == ib and not (x == y):
+        return bad(f"{na} != a freshly built identical operation", kind="eq_reflexive", level="perm_op", family=family)
+    comm = float(np.max(np.abs(ma @ mb - mb @ ma)))
+    same = close(ma, mb)
+    for label, f in ((f"commutes({na}, {nb})", lambda: cirq.commutes(x, y, default=None)),
+                     (f"definitely_commutes({na}, {nb})", lambda: cirq.definitely_commutes(x, y) or None)):
+        ok, c = guarded(label, f, level="perm_op", family=family)
+        if not ok:
+            return c
+        v = _commute_verdict(label, c, comm, "perm_op", family)
+        if v is not None:
+            return v
+        definite += c is True or c is False
+    # the same through single-operation moments and circuits
+    m1, m2 = cirq.Moment(mk_a()), cirq.Moment(mk_b())
+    ok, eqm = guarded(f"Moment({na}) == Moment({nb})", lambda: m1 == m2, level="perm_moment", family=family)
+    if not ok:
+        return eqm
+    if eqm is True:
+        if not same:
+            return bad(f"Moment({na}) == Moment({nb}) but the matrices on the common register differ by {maxdiff(ma, mb):.3g}", kind="eq_matrix", level="perm_moment", family=family)
+        if safe_hash(m1) != safe_hash(m2):
+            return bad(f"Moment({na}) == Moment({nb}) but hash differs", kind="eq_hash", level="perm_moment", family=family)
+        definite += 1
+    for label, f in ((f"commutes(Moment({na}), Moment({nb}))", lambda: cirq.commutes(m1, m2, default=None)),
+                     (f"definitely_commutes(Moment({na}), Moment({nb}))", lambda: cirq.definitely_commutes(m1, m2) or None)):
+        ok, c = guarded(label, f, level="perm_moment", family=family)
+        if not ok:
+            return c
+        v = _commute_verdict(label, c, comm, "perm_moment", family)
+        if v is not None:
+            return v
+        definite += c is True or c is False
+    c1, c2 = cirq.Circuit(mk_a()), cirq.Circuit(mk_b())
+    if (c1 == c2) and not same:
+        return bad(f"Circuit({na}) == Circuit({nb}) but the matrices differ by {maxdiff(ma, mb):.3g}", kind="eq_matrix", level="perm_circuit", family=family)
+    if (cirq.FrozenCircuit(mk_a()) == cirq.FrozenCircuit(mk_b())) and not same:
+        return bad(f"FrozenCircuit({na}) == FrozenCircuit({nb}) but the matrices differ by {maxdiff(ma, mb):.3g}", kind="eq_matrix", level="perm_circuit", family=family)
+    return good(nontrivial=ia != ib and definite > 0, definite_answers=definite)
+
+
+# --------------------------------------------------------------------------------------------------------------
+# stage: PhasedXZGate Clifford recognition on a quarter-step lattice (non-canonical parameterisations included)
+
+_XZ_CLIFFORDS = []
+
+
+def xz_lattice(seed, tier):
+    g = core.generic(seed, 0)
+    quarters = [k / 4 for k in range(-8, 9)]
+    xs = [0.0, 0.5, -0.5, 1.0, -1.0, 2.0, 1.5, 3.0, g] if tier == "quick" else quarters + [3.0, g]
+    zs = quarters + [g]
+    as_ = [k / 4 for k in range(-4, 9)] + [g] if tier == "quick" else quarters + [g]
+    return xs, zs, as_
+
+
+def xz_cliffords():
+    if not _XZ_CLIFFORDS:
+        for c in cirq.SingleQubitCliffordGate.all_single_qubit_cliffords:
+            pg = c.to_phased_xz_gate()
+            _XZ_CLIFFORDS.append((pg, U(pg)))
+    return _XZ_CLIFFORDS
+
+
+def run_xz(case):
+    xi, zi, ai = case
+    xs, zs, as_ = xz_lattice(_SEED, _TIER)
+    x, z, a = xs[xi], zs[zi], as_[ai]
+    mk = lambda: cirq.PhasedXZGate(x_exponent=x, z_exponent=z, axis_phase_exponent=a)
+    g = mk()
+    name = f"PhasedXZGate(x={x}, z={z}, a={a})"
+    u = U(g)
+    clifford = maps_paulis_to_paulis(u, 1)    # None = the matrix IS Clifford
+    definite = 0
+    for obj, lvl in ((g, "gate"), (g.on(Q0), "op"), (g.on(Q0).with_tags("t"), "tagged")):
+        ok, hs = guarded(f"has_stabilizer_effect({name} [{lvl}])", lambda: cirq.has_stabilizer_effect(obj), level=lvl)
+        if not ok:
+            return hs
+        if hs:
+            if clifford is not None:
+                return bad(f"has_stabilizer_effect({name} [{lvl}]) is True but {clifford}", kind="has_stabilizer_effect", level=lvl, family="PhasedXZGate")
+            definite += 1
+    ok, cc = guarded(f"{name}.canonical_clifford()", lambda: mk().canonical_clifford())
+    if not ok:
+        return cc
+    if cc is not None:
+        ucc = U(cc)
+        if not E.eq_up_to_phase(u, ucc, ATOL):
+            return bad(f"{name}.canonical_clifford() = {cc!r} is a different gate (residual up to global phase {phase_dist(u, ucc):.3g})", kind="canonical_clifford")
+        if clifford is not None:
+            return bad(f"{name}.canonical_clifford() = {cc!r} although the matrix is not Clifford: {clifford}", kind="canonical_clifford")
+        definite += 1
+    # Clifford-object conversions of the matrix must keep it (up to global phase / with the reported phase)
+    ok, sq = guarded(f"SingleQubitCliffordGate.from_unitary(U({name}))", lambda: cirq.SingleQubitCliffordGate.from_unitary(u))
+    if not ok:
+        return sq
+    if sq is not None:
+        if clifford is not None or not E.eq_up_to_phase(u, U(sq), ATOL):
+            return bad(f"SingleQubitCliffordGate.from_unitary(U({name})) = {sq!r} whose matrix differs up to phase by {phase_dist(u, U(sq)):.3g}", kind="from_unitary")
+        back = sq.to_phased_xz_gate()
+        if not E.eq_up_to_phase(u, U(back), ATOL):
+            return bad(f"{sq!r}.to_phased_xz_gate() = {back!r} differs from the original matrix up to phase by {phase_dist(u, U(back)):.3g}", kind="to_phased_xz_gate")
+        ok, wp = guarded("from_unitary_with_global_phase", lambda: cirq.SingleQubitCliffordGate.from_unitary_with_global_phase(u))
+        if not ok:
+            return wp
+        if wp is not None and not close(u, wp[1] * U(wp[0])):
+            return bad(f"from_unitary_with_global_phase(U({name})) = {wp!r}: phase * matrix differs from the input by {maxdiff(u, wp[1] * U(wp[0])):.3g}", kind="from_unitary")
+        definite += 1
+    ok, fm = guarded(f"PhasedXZGate.from_matrix(U({name}))", lambda: cirq.PhasedXZGate.from_matrix(u))
+    if not ok:
+        return fm
+    if not E.eq_up_to_phase(u, U(fm), 1e-6):
+        return bad(f"PhasedXZGate.from_matrix(U({name})) = {fm!r} differs up to phase by {phase_dist(u, U(fm)):.3g}", kind="from_matrix")
+    # == against the 24 canonical Clifford PhasedXZGates: PhasedXZGate equality is documented modulo global phase
+    for pg, upg in xz_cliffords():
+        g2 = mk()
+        if g2 == pg:
+            if not E.eq_up_to_phase(u, upg, ATOL):
+                return bad(f"{name} == {pg!r} but the matrices are not proportional (residual {phase_dist(u, upg):.3g})", kind="eq_matrix", level="phased_xz")
+            if hash(g2) != hash(pg):
+                return bad(f"{name} == {pg!r} but hash differs", kind="eq_hash", level="phased_xz")
+            definite += 1
+    return good(nontrivial=definite > 0, definite_answers=definite)
+
+
 def describe_gate_case(case):
     return {"gate": GATES.name(case[0]), "powers": [POWERS[k] for k in case[1:]]}
 
@@ -1404,6 +1699,8 @@ def stages(tier, seed):
     gate_pairs = [(i, j) for i in range(nG) for j in range(nG)]
     op_pairs = [(i, j) for i in range(nL) for j in range(nL)]
     gname = lambda c: [GATES.name(k) for k in c]
+    xz = xz_lattice(seed, tier)
+    xz_cases = [(i, j, k) for i in range(len(xz[0])) for j in range(len(xz[1])) for k in range(len(xz[2]))]
     return [
         CaseStage("pow_inverse", pow_cases, run_pow, reset=reset, describe=describe_gate_case),
         CaseStage("powers_add_and_compose", pow_pair_cases, run_pow_pair, reset=reset, describe=describe_gate_case),
@@ -1419,6 +1716,11 @@ def stages(tier, seed):
         CaseStage("unary_predicates", unary_cases, run_unary, reset=reset, describe=gname),
         CaseStage("gate_pair_predicates", gate_pairs, run_gate_pair, reset=reset, describe=gname),
         CaseStage("op_pair_predicates", op_pairs, run_op_pair, reset=reset, describe=lambda c: [LETTERS.name(k) for k in c]),
+        CaseStage("permuted_qubits_predicates", perm_cases(), run_perm, reset=reset,
+                  describe=lambda c: {"gate": PERMG.name(c[0]), "perm_a": perm_list(cirq.num_qubits(PERMG.make(c[0])))[c[1]],
+                                      "perm_b": perm_list(cirq.num_qubits(PERMG.make(c[0])))[c[2]]}),
+        CaseStage("phased_xz_clifford_lattice", xz_cases, run_xz, reset=reset,
+                  describe=lambda c: {"x": xz[0][c[0]], "z": xz[1][c[1]], "a": xz[2][c[2]]}),
     ]
 
 
